@@ -65,6 +65,35 @@ theorem C06_refuse_climbing (h : TarHdr) (m : Meta) (hm : tarHdrToMeta h = .meta
     mustRel h.name = some m.name := by
   exact (tarHdrToMeta_meta h m hm).1
 
+/-- **An entry whose path passes through a name that an earlier entry of the same archive supplied as a symlink (or a
+    file, a fifo, a device) is not placed**: with that name filed in the bucket as a non-directory and not known as a
+    directory, one iteration of the tar entry loop never comes back with success — before `PlaceFile` could follow
+    anything.  (Since `fix:` 190f773; the real file system refuses such an entry too — the `hostile` stream — but the
+    nil file system of scan and mirror refuses nothing, so the loop has to.) -/
+theorem C06_no_entry_through_own_symlink {σ : Type} (ops : FsOps σ) (myUid myGid : Nat) (filt : UnpackFilter) (h : TarHdr)
+    (st : UnpackSt σ) (fmeta : Meta) (hm : tarHdrToMeta h = .meta_ fmeta) (p : RelPath)
+    (hp : p ∈ fmeta.name.splitParent) (hnd : p ∉ st.dirs) (hlink : st.pre.has (fileTwin p) = true) :
+    ∀ st', unpackEntry ops myUid myGid filt h st ≠ .ok st' := by
+  intro st'
+  unfold unpackEntry
+  rw [hm]
+  simp only
+  split
+  · simp
+  · split
+    · simp
+    · split
+      · simp
+      · have := conjure_not_ok ops myUid myGid filt fmeta.name.splitParent st ⟨p, hp, hnd, hlink⟩
+        cases hc : conjureParents ops myUid myGid filt fmeta.name.splitParent st with
+        | ok s1 => exact absurd hc (this s1)
+        | err c => simp
+        | panic w => simp
+
+/-- the bucket key of a symlink, a file, a fifo or a device named `p` is the one the parent loop looks for -/
+theorem fileTwin_key (m : Meta) (hk : m.kind ≠ .dir) : recordName (fileTwin m.name) = recordName m := by
+  simp [recordName, fileTwin, defaultDirMeta, hk]
+
 /-- T-fact tie: the calls `PlaceFile` relies on being no-follow resolve with `resolveLast = false`, and the one
     call that follows (`Chmod`) resolves the leaf in-base first (C07_discipline); see Props/C07. -/
 theorem C06_tie : ∀ row ∈ Generated.osfsMethods,
